@@ -863,3 +863,128 @@ def collections_of_genesis(sc, n):
             cnt[ws[1]] += 1
         i -= 1
     return cnt
+
+
+# ---------------- C19 ----------------
+class RefRegs:
+    """reference maps maintained from genesis and from the OUTCOMES of transactions only"""
+
+    def __init__(self, st):
+        self.att = set(bytes.fromhex(a['v']) for a in st['attester'])
+        self.lim = {bytes.fromhex(l['denom']): int(l['amt']) for l in st['limit']}
+        self.pair = {(int(p['domain']), bytes.fromhex(p['token'])): bytes.fromhex(p['local']) for p in st['pair']}
+        self.msgr = {int(m['domain']): bytes.fromhex(m['addr']) for m in st['messenger']}
+        self.non = set((int(x['domain']), int(x['nonce'])) for x in st['nonce'])
+
+    def apply(self, ty, a):
+        if ty == 'EnableAttester':
+            self.att.add(bytes.fromhex(a['attester']))
+        elif ty == 'DisableAttester':
+            self.att.discard(bytes.fromhex(a['attester']))
+        elif ty == 'LinkTokenPair':
+            self.pair[(int(a['domain']), bytes.fromhex(a['token']))] = bytes.fromhex(a['local']).decode('latin1').lower().encode('latin1')
+        elif ty == 'UnlinkTokenPair':
+            self.pair.pop((int(a['domain']), bytes.fromhex(a['token'])), None)
+        elif ty == 'AddRemoteTokenMessenger':
+            self.msgr[int(a['domain'])] = bytes.fromhex(a['address'])
+        elif ty == 'RemoveRemoteTokenMessenger':
+            self.msgr.pop(int(a['domain']), None)
+        elif ty == 'SetMaxBurnAmountPerMessage':
+            self.lim[bytes.fromhex(a['local']).decode('latin1').lower().encode('latin1')] = 0 if a['amount'] == '-' else int(a['amount'])
+        elif ty == 'ReceiveMessage':
+            h = msg_header(a['message'])
+            self.non.add((h['src'], h['nonce']))
+
+    def listing(self, ty):
+        """(store key, rendered item) in key order"""
+        if ty == 'Attesters':
+            rows = [(x + b'/', x.hex()) for x in self.att]
+        elif ty == 'PerMessageBurnLimits':
+            rows = [(d + b'/', '%s:%d' % (d.hex(), v)) for d, v in self.lim.items()]
+        elif ty == 'TokenPairs':
+            rows = [(keccak256(d.to_bytes(4, 'big') + t) + b'/', '%d:%s:%s' % (d, t.hex(), l.hex())) for (d, t), l in self.pair.items()]
+        elif ty == 'UsedNonces':
+            rows = [(d.to_bytes(4, 'big') + n.to_bytes(8, 'big') + b'/', '%d:%d' % (d, n)) for (d, n) in self.non]
+        else:
+            rows = [(d.to_bytes(4, 'big') + b'/', '%d:%s' % (d, v.hex())) for d, v in self.msgr.items()]
+        return sorted(rows)
+
+    def dump(self):
+        return (sorted(x.hex() for x in self.att), sorted((d.hex(), v) for d, v in self.lim.items()),
+                sorted((d, t.hex(), l.hex()) for (d, t), l in self.pair.items()), sorted((d, v.hex()) for d, v in self.msgr.items()), sorted(self.non))
+
+
+def dump_of_state(st):
+    return (sorted(a['v'] for a in st['attester']), sorted((l['denom'], int(l['amt'])) for l in st['limit']),
+            sorted((int(p['domain']), p['token'], p['local']) for p in st['pair']), sorted((int(m['domain']), m['addr']) for m in st['messenger']),
+            sorted((int(x['domain']), int(x['nonce'])) for x in st['nonce']))
+
+
+def mon_c19(scripts, stats):
+    REG_TX = ('EnableAttester', 'DisableAttester', 'LinkTokenPair', 'UnlinkTokenPair', 'AddRemoteTokenMessenger',
+              'RemoveRemoteTokenMessenger', 'SetMaxBurnAmountPerMessage', 'ReceiveMessage')
+    for sc in scripts:
+        ref = None
+        for _sc, n, inp, cmd, ty, a, pre, obs in walk([sc]):
+            if cmd == 'G-END':
+                ref = RefRegs(state_of(obs.get('S', []))) if obs.get('GI', [''])[0] == 'ok' else None
+                continue
+            if ref is None:
+                continue
+            if cmd == 'TX':
+                if outcome(obs) == 'ok' and ty in REG_TX:
+                    ref.apply(ty, a)
+                stats['mon_c19_tx'] += 1
+                if dump_of_state(state_of(obs.get('S', []))) != ref.dump():
+                    yield sc, n, 'C19: after %s (%s) the stored registries are not those established by the successful transactions' % (ty, outcome(obs))
+                    ref = RefRegs(state_of(obs.get('S', [])))
+                continue
+            if cmd != 'Q':
+                continue
+            q = obs.get('QR', [''])[0]
+            if q == 'panic':
+                continue     # C20's subject
+            stats['mon_c19_queries'] += 1
+            exp = None
+            if ty == 'Attester':
+                x = bytes.fromhex(a['attester'])
+                exp = 'ok attester=' + x.hex() if x in ref.att else 'err'
+            elif ty == 'PerMessageBurnLimit':
+                d = bytes.fromhex(a['denom'])
+                exp = 'ok item=%s:%d' % (d.hex(), ref.lim[d]) if d in ref.lim else 'err'
+            elif ty == 'RemoteTokenMessenger':
+                d = int(a['domain'])
+                exp = 'ok item=%d:%s' % (d, ref.msgr[d].hex()) if d in ref.msgr else 'err'
+            elif ty == 'UsedNonce':
+                p = (int(a['domain']), int(a['nonce']))
+                exp = 'ok item=%d:%d' % p if p in ref.non else 'err'
+            elif ty == 'TokenPair':
+                sp = bytes.fromhex(a['token']).decode('latin1')
+                if sp.startswith('0x'):
+                    sp = sp[2:]
+                try:
+                    t = bytes.fromhex(sp) if all(c in '0123456789abcdefABCDEF' for c in sp) and len(sp) % 2 == 0 else None
+                except ValueError:
+                    t = None
+                if t is None or len(t) > 32:
+                    exp = 'err'
+                else:
+                    k = (int(a['domain']), pad32(t))
+                    exp = 'ok item=%d:%s:%s' % (k[0], k[1].hex(), ref.pair[k].hex()) if k in ref.pair else 'err'
+            elif ty in ('Attesters', 'PerMessageBurnLimits', 'TokenPairs', 'UsedNonces', 'RemoteTokenMessengers') and a['reverse'] == '0':
+                rows = ref.listing(ty)
+                limit, off, key = int(a['limit']), int(a['offset']), bytes.fromhex(a['key'])
+                ct = a['count_total'] == '1'
+                if limit == 0:
+                    limit, ct = 100, True
+                if key and off:
+                    exp = 'err'
+                elif key:
+                    rows = [r for r in rows if r[0] >= key]
+                    page, rest = rows[:limit], rows[limit:]
+                    exp = 'ok items=%s next=%s total=-' % (';'.join(r[1] for r in page), rest[0][0].hex() if rest else '')
+                elif off + limit < (1 << 64):
+                    page, rest = rows[off:off + limit], rows[off + limit:]
+                    exp = 'ok items=%s next=%s total=%s' % (';'.join(r[1] for r in page), rest[0][0].hex() if rest else '', len(rows) if ct else '-')
+            if exp is not None and q != exp:
+                yield sc, n, 'C19: query %s answered %r, the registries say %r' % (ty, q[:200], exp[:200])
